@@ -175,3 +175,33 @@ CHECKS["C10"] = dict(_at_common, **{
                  "real rollback path with injected database faults; full-state trace validation by TLC",
     "legs_fn": _atrb_legs(["ATRollback_Gen_C10.cfg"], ["ATRollback_Gen_C10.cfg"], [_OC1, _OC0], [_OC1, _OC0, _OC1P]),
 })
+
+CHECKS["C02"] = {
+    "level": "model_checking",
+    "level_text": "ATPhaseOne.tla is the protocol of one local transaction inside a global transaction as the database "
+                  "connections and the coordinator observe it: COMMIT enabled only after the branch is registered and "
+                  "the undo-log row was inserted on the same connection inside the transaction; any failed step => "
+                  "nothing durable, error returned, transaction ended before the call returns, registered branch "
+                  "reported failed. TLC checks the design (AllOrNothing, CommitDiscipline, ErrorSurfaces, PoolClean, "
+                  "FailedIsReported) and enumerates the environment: statement kind x rows touched x autocommit/explicit "
+                  "x coordinator answer {grant, lock conflict, error, transport error} x database fault at client "
+                  "statement 1..9 x 0/1/2/5 failing reports. Each is replayed through the real AT proxy over memsql; "
+                  "the statement journal of the physical connections and the coordinator log, merged by a counter "
+                  "shared by both stand-ins, are validated by TLC against the specification together with the durable "
+                  "delta and the transaction state of the pooled connections after the call.",
+    "level_note": "Trusted: TLC, memsql (a failed COMMIT rolls the transaction back, as InnoDB does), the coordinator "
+                  "stand-in, the shared sequence counter (taken under each stand-in's mutex). Bounds: one statement per "
+                  "local transaction, one fault per scenario.",
+    "technique": "TLA+ spec + TLC design check; TLC-enumerated fault positions replayed on the real proxy driver with "
+                 "injected database and coordinator faults; TLC trace validation of the merged journal",
+    "mc": [("ATPhaseOne_MC", "ATPhaseOne_MC.cfg", {"workers": 4})],
+    "legs": [{
+        "name": "atp1", "driver": "atp1",
+        "gen": [("ATPhaseOne_Gen", "ATPhaseOne_Gen.cfg")],
+        "trace": ("ATPhaseOne_Trace", "ATPhaseOne_Trace.cfg"),
+        "shards": 12,
+    }],
+    "assumptions": ["database faults are injected as statement errors without effect (a failed COMMIT leaves nothing "
+                    "behind); a transport error is a failed write on the session"],
+    "trusted_base": AT_TB,
+}
